@@ -242,6 +242,9 @@ const CORPUS: &[&str] = &[
     "SWAP-PHASES %DAGGER \"rf\" 0 \"ro\"",
     "DEFCIRCUIT C %NOT:\n    X %NOT",
     "MEASURE %MATRIX ro",
+    "DEFFRAME %NOT \"f\":\n    A: 1",
+    "DEFCAL X %AS:\n    NOP\nDEFCAL MEASURE %SHARING:\n    NOP",
+    "DEFGATE S a AS SEQUENCE:\n    X a\nFENCE %OFFSET\nDELAY %HALT 1\nRESET %WAIT",
     "H %pi %i %sin",
     // a string with a newline inside a DEFCIRCUIT body (re-indented by CircuitDefinition::write)
     "DEFCIRCUIT C:\n    PRAGMA x \"a\nb\"",
